@@ -15,6 +15,11 @@ def check(run, replay_case=None):
     run.min_evaluations = 1000
     run.min_distinct = 50
     run.assumptions = ['only attribute combinations the derive documents as supported are generated; every corpus type was first proven on the unchanged tree (generator bugs are removed, see DESIGN.md)']
+    if not run.quick():
+        # second, larger corpus (300 further generated types, prefix H) compiled only for the thorough tier
+        from .. import driver
+        driver.build('avmon-corpus', ['--features', 'seeded'])
+        run.cov['corpora'] = ['hand', 'derived_fixed', 'derived_seeded']
     types = CC.run_corpus(run, 'c17', n)
     CC.report(run, types, 'C17')
 
